@@ -34,7 +34,9 @@ check('C01',
       'Hand-written model tied by correspondence; additionally the start-time / sample-rate / step>0 arithmetic of Signal._time_slice '
       '(through which every crop and slice of the library goes) is REGENERATED from core.py by translator T4 on every run and '
       'C01_generated_core proves the model time_slice is built from exactly those generated terms (C01_generated_derived: likewise dt, '
-      'time_length and stop_time from their property bodies). '
+      'time_length and stop_time from their property bodies; C01_generated_contains: contains). The index dispatch of Signal.__getitem__ / '
+      'RadioSignal.__getitem__ is regenerated too (Gen/GenGetitem.v); C01_getitem proves that a successful z[index], whatever else the index '
+      'holds, is time_slice on item 0, C01_getitem_refuses that a non-slice on the time axis is IndexError. '
       'Trusted: Coq kernel, translator T4, Lib/PySlice = CPython slice.indices, astropy '
       'Time/Quantity = exact rationals within max(50 ps, 4e-15*elapsed); FFT-path ops (time_shift, dedispersion) are observed through '
       'their ledger only; rates 1 mHz - 5 GHz.',
@@ -47,6 +49,9 @@ check('C02',
       'C02_slice_ok evaluated on the observed channel_freqs etc.; correspondence on all radio classes.',
       'The label formula, bandwidth, band edges and the arithmetic of RadioSignal._freq_slice are REGENERATED from core.py by translator '
       'T4 on every run and C02_generated_label / _edges / _slice / _align prove the model is built from exactly those terms. '
+      'The index dispatch of RadioSignal.__getitem__ (Model/Getitem.v) is regenerated as well (C02_generated_getitem; FullStokesSignal.__getitem__ '
+      'pinned): C02_getitem (a successful index is freq_slice on item 1), C02_trailing_items_irrelevant (items beyond the labelled axes never '
+      'influence time or frequency labels), C02_time_only_keeps_band, C02_getitem_refuses; run against z[index] for random index tuples on all classes. '
       'Trusted: Coq kernel, translators T2 (align table + textual pin of the label formula) and T4, float64 label arithmetic within '
       '2^-49*(|cf|+n*bw); domain |cf|/bw <= 2^30.',
       'machine-checked proof in Coq (Q) with constants (T2) and band arithmetic (T4) regenerated from source + correspondence run',
@@ -270,7 +275,7 @@ check('C08',
       'selected entry and the coefficient updates / padding / line count of from_polyco are REGENERATED from pulsar/predictor.py by translator '
       'T14 on every run (other statements pinned); C08_generated_* prove the model equal to them. '
       'Trusted: Coq kernel; astropy Time differences as exact rationals (TAI); float64 Horner error below 1e-8 inside the sampled envelope '
-      'F0*span/2 <= 1e6 cycles; searchsorted on float MJD (times within 20 us of a span end excluded from the selection comparison).',
+      'F0*span/2 <= 1e6 cycles; searchsorted on float MJD (times within 20 us of a span end excluded from the selection comparison); a quarter of the sampled instants are given in TT / TAI (repair D27).',
       'machine-checked proof in Coq (Q) + correspondence run (vm_compute) + exact-rational monitor',
       'DESIGN.md 5 C08')
 
